@@ -13,8 +13,9 @@ Record inv (page : Z) (fit : bool) (b : blocks) : Prop := mkInv {
   inv_bs : valid_bs page (blkSize b);
   inv_bis : blksInSegm b = 8 * blkSize b;
   inv_segs : 1 <= segments b;
-  inv_segs_eq : segments b = bsize (bts b) / ssz (blkSize b);
-  inv_fit : fit = true -> bsize (bts b) mod ssz (blkSize b) = 0;
+  (* the segments lie inside the storage; the storage may be larger (non-fit,
+     or grown under the live allocator) *)
+  inv_segs_fit : segments b * ssz (blkSize b) <= bsize (bts b);
   (* the hint is a header byte, or lies behind the last segment *)
   inv_hint : 0 <= freeIdx b /\
              (segments b * ssz (blkSize b) <= freeIdx b \/ freeIdx b mod ssz (blkSize b) < blkSize b);
@@ -25,18 +26,17 @@ Record inv (page : Z) (fit : bool) (b : blocks) : Prop := mkInv {
   inv_avail : available b = free_count (blkSize b) (segments b) (bts b)
 }.
 
+(** the allocator covers the whole storage: what NewBlocks establishes and what
+    holds until the storage is grown under the live allocator *)
+Definition tight (fit : bool) (b : blocks) : Prop :=
+  segments b = bsize (bts b) / ssz (blkSize b) /\
+  (fit = true -> bsize (bts b) mod ssz (blkSize b) = 0).
+
 Lemma segm_size_ssz : forall b, blksInSegm b = 8 * blkSize b -> segm_size b = ssz (blkSize b).
 Proof. intros b H. unfold segm_size, ssz. rewrite H. reflexivity. Qed.
 
 Lemma inv_bs_pos : forall page fit b, inv page fit b -> 0 < blkSize b.
 Proof. intros page fit b I. destruct (inv_bs _ _ _ I) as [H _]. exact H. Qed.
-
-Lemma inv_segs_fit : forall page fit b, inv page fit b ->
-  segments b * ssz (blkSize b) <= bsize (bts b).
-Proof.
-  intros page fit b I. pose proof (ssz_pos _ (inv_bs_pos _ _ _ I)) as Hss.
-  rewrite (inv_segs_eq _ _ _ I). rewrite Z.mul_comm. apply Z.mul_div_le. exact Hss.
-Qed.
 
 Lemma hdr_in_buffer : forall bs segs size s p, 0 < bs -> segs * ssz bs <= size ->
   0 <= s < segs -> 0 <= p < bs -> 0 <= hdr_addr bs s p /\ hdr_addr bs s p < size /\
@@ -131,11 +131,15 @@ Proof.
   constructor; unfold opened; cbn [blkSize blksInSegm segments freeIdx available bts]; try assumption.
   - reflexivity.
   - apply Z.div_le_lower_bound; lia.
-  - reflexivity.
+  - rewrite Z.mul_comm. apply Z.mul_div_le. exact Hss.
   - split; [lia|]. right. rewrite Z.mod_0_l by lia. exact Hbs.
   - intros s p Hs Hp' Hlt. pose proof (hdr_addr_nonneg bs s p Hbs ltac:(lia) ltac:(lia)). lia.
   - reflexivity.
 Qed.
+
+Lemma opened_tight : forall bs buf fit,
+  (fit = true -> bsize buf mod ssz bs = 0) -> tight fit (opened bs buf).
+Proof. intros bs buf fit Hfit. split; [reflexivity|exact Hfit]. Qed.
 
 (** * Block *)
 
@@ -188,20 +192,34 @@ Definition with_bts (b : blocks) (buf : buffer) : blocks :=
   mkBlocks (blkSize b) (blksInSegm b) (segments b) (freeIdx b) (available b) buf.
 
 (** writes that leave the headers alone change nothing the allocator knows *)
+Lemma hidden_of_bytes_ext : forall bs segs buf buf', 0 < bs -> 0 <= segs ->
+  bsize buf' = bsize buf -> (forall n, same_headers bs n buf buf') ->
+  hidden_of_bytes bs segs buf' = hidden_of_bytes bs segs buf.
+Proof.
+  intros bs segs buf buf' Hbs Hsegs Hsz H. unfold hidden_of_bytes. rewrite Hsz.
+  apply filter_ext_zrange. intros x Hx.
+  assert (Hx0 : 0 <= x) by (assert (0 <= segs * (8 * bs)) by (apply Z.mul_nonneg_nonneg; lia); lia).
+  clear Hx. unfold is_hidden. rewrite Hsz. f_equal.
+  destruct (idx_decompose bs x Hbs Hx0) as [E [Hs [Hp Hj]]]. cbv zeta in E, Hs, Hp, Hj.
+  rewrite E. rewrite !is_alloc_bytes_at by assumption.
+  rewrite (H (x / (8 * bs) + 1)); [reflexivity|lia|exact Hp].
+Qed.
+
 Lemma data_write_inv : forall page fit b buf',
   inv page fit b -> bsize buf' = bsize (bts b) ->
-  same_headers (blkSize b) (segments b) (bts b) buf' ->
+  (forall n, same_headers (blkSize b) n (bts b) buf') ->
   inv page fit (with_bts b buf') /\ abs (with_bts b buf') = abs b.
 Proof.
   intros page fit b buf' I Hsz Hsame. pose proof (inv_bs_pos _ _ _ I) as Hbs. split.
-  - destruct I as [I1 I2 I3 I4 I5 I6 I7 I8 I9].
+  - destruct I as [I1 I2 I3 I4 I5 I7 I8 I9].
     constructor; unfold with_bts; cbn [blkSize blksInSegm segments freeIdx available bts]; try assumption.
     + rewrite Hsz. exact I5.
-    + rewrite Hsz. exact I6.
-    + intros s p Hs Hp Hlt. rewrite Hsame by assumption. apply I8; assumption.
-    + rewrite I9. symmetry. apply free_count_ext; assumption.
-  - unfold abs, alloc_list, with_bts. cbn [blkSize segments bts].
-    rewrite (alloc_of_bytes_ext _ _ (bts b) buf') by assumption. reflexivity.
+    + intros s p Hs Hp Hlt. rewrite (Hsame (segments b)) by assumption. apply I8; assumption.
+    + rewrite I9. symmetry. apply free_count_ext; [assumption|apply Hsame].
+  - unfold abs, alloc_list, hidden_list, with_bts. cbn [blkSize segments bts].
+    rewrite (alloc_of_bytes_ext _ _ (bts b) buf') by (try assumption; apply Hsame).
+    rewrite (hidden_of_bytes_ext _ _ (bts b) buf') by (try assumption; pose proof (inv_segs _ _ _ I); lia).
+    rewrite Hsz. reflexivity.
 Qed.
 
 Lemma fill_same_headers : forall bs segs buf i v, 0 < bs -> 0 <= i ->
@@ -475,7 +493,7 @@ Lemma with_free_inv_abs : forall page fit b f',
   inv page fit (with_free b f') /\ abs (with_free b f') = abs b.
 Proof.
   intros page fit b f' I Hf0 Hf Hall. split; [|reflexivity].
-  destruct I as [I1 I2 I3 I4 I5 I6 I7 I8 I9].
+  destruct I as [I1 I2 I3 I4 I5 I7 I8 I9].
   constructor; unfold with_free; cbn [blkSize blksInSegm segments freeIdx available bts]; try assumption.
   - split; [exact Hf0|left; exact Hf].
   - intros s p Hs Hp _. apply Hall; assumption.
@@ -522,7 +540,7 @@ Proof.
     assert (0 <= (8 * bs) * s1) by (apply Z.mul_nonneg_nonneg; lia). lia. }
   split; [|split; [exact Hi_range|split; [exact Hi_alloc|split; [|split]]]].
   - (* invariant *)
-    destruct I as [I1 I2 I3 I4 I5 I6 I7 I8 I9].
+    destruct I as [I1 I2 I3 I4 I5 I7 I8 I9].
     constructor; unfold arranged; cbn [blkSize blksInSegm segments freeIdx available bts];
       fold bs; fold a; fold v; try assumption.
     + split; [apply hdr_addr_nonneg; lia|]. right. unfold a. rewrite hdr_addr_mod by assumption. lia.
@@ -633,7 +651,7 @@ Proof.
     intros i0 Hi0. fold a. fold v. rewrite Hbits by exact Hi0.
     destruct (N.eqb_spec i0 (Z.to_N j)) as [->|_]; [rewrite Hnc; reflexivity|reflexivity]. }
   split; [|split].
-  - destruct I as [I1 I2 I3 I4 I5 I6 I7 I8 I9].
+  - destruct I as [I1 I2 I3 I4 I5 I7 I8 I9].
     constructor; cbn [blkSize blksInSegm segments freeIdx available bts]; fold bs; try assumption.
     + destruct I7 as [I7a I7b]. destruct (Z.ltb_spec a (freeIdx b)) as [Hlt|Hge].
       * split; [apply hdr_addr_nonneg; lia|]. right. unfold a. rewrite hdr_addr_mod by assumption. lia.
